@@ -53,6 +53,12 @@ def gen(rng, tier, escalate):
         ibl = rng.random() < 0.5
         fac = (not ibl) and rng.random() < 0.3
         cases.append({"syntax": rng.choice(SYNS), "ibl": ibl, "factory": fac, "delims": rng.choice(DELIMS), "lines": lines, "kind": "rnd"})
+    # lines the typed-model factories claim (decorated with braces etc.): the same config with the factory off and on
+    for t in range(nrand // 5):
+        lines = parsegen.factory_lines(rng)
+        syn, dl = rng.choice(SYNS), rng.choice(DELIMS)
+        for fac in (False, True):
+            cases.append({"syntax": syn, "ibl": False, "factory": fac, "delims": dl, "lines": lines, "kind": "fac"})
     return cases
 
 
